@@ -29,6 +29,8 @@ type Scen struct {
 	ACType   string
 	acParams func() accesscontroller.ManifestParams
 	replic   *bool
+	// Decoys: every instance has a second simple-controller database with another write list
+	Decoys bool
 }
 
 type ScenOpts struct {
@@ -131,6 +133,23 @@ func NewScen(n int, storeType string, o *ScenOpts) (*Scen, error) {
 		return nil, fmt.Errorf("access controller type %q cannot be constructed here", o.ACType)
 	}
 	ctx := env.Ctx
+	if s.ACType == "simple" && scenCounter%4 != 0 {
+		// every instance already has another database with a simple controller open, whose write
+		// list is the opposite of this scenario's (everybody, or nobody when the scenario lets
+		// everybody write): the controllers of the databases of one instance are separate things
+		decoyAccess := map[string][]string{"write": {"*"}}
+		if o.Wildcard {
+			decoyAccess = map[string][]string{"write": {}}
+		}
+		no := false
+		for i, rp := range s.Reps {
+			if _, err := rp.Orbit.Create(ctx, fmt.Sprintf("decoy-%s-%d", s.Label, i), "eventlog", &orbitdb.CreateDBOptions{
+				AccessController: accesscontroller.NewSimpleManifestParams("simple", decoyAccess), Replicate: &no}); err != nil {
+				return nil, fmt.Errorf("decoy database on replica %d: %w", i, err)
+			}
+		}
+		s.Decoys = true
+	}
 	st, err := s.Reps[0].Orbit.Create(ctx, "db-"+s.Label, storeType, &orbitdb.CreateDBOptions{AccessController: ac, Replicate: o.Replicate})
 	if err != nil {
 		return nil, fmt.Errorf("create: %w", err)
